@@ -133,7 +133,19 @@ func main() {
 		"fasync": "package fasync\n\nimport \"github.com/goose-lang/goose/machine/async_disk\"\n\nfunc Blocks() uint64 {\n\treturn async_disk.Size()\n}\n",
 		"fnone": "package fnone\n\nfunc Seven() uint64 {\n\treturn 7\n}\n",
 	}
-	for _, name := range []string{"fasync", "fdisk", "fnone"} {
+	// packages whose translation prints expressions while the workers run (struct values and
+	// interface conversions as call arguments): shared printer state would be raced on
+	for i := 0; i < 4; i++ {
+		name := fmt.Sprintf("sv%d", i)
+		ffiPkgs[name] = fmt.Sprintf("package %s\n\ntype P struct {\n\ta uint64\n\tb uint64\n}\n\ntype Shape interface {\n\tArea() uint64\n}\n\nfunc (p P) Area() uint64 {\n\treturn p.a * p.b\n}\n\n"+
+			"func use(p P, q P) uint64 {\n\treturn p.a + q.b\n}\n\nfunc area(s Shape) uint64 {\n\treturn s.Area()\n}\n\n"+
+			"func F(x uint64) uint64 {\n\tp := P{a: x, b: %d}\n\tif x > 3 {\n\t\tif x > 5 {\n\t\t\treturn use(p, P{a: 1, b: x}) + area(p)\n\t\t}\n\t}\n\treturn use(P{a: x, b: 2}, p) + area(P{a: 2, b: x})\n}\n", name, i+1)
+	}
+	// two packages with the same name, different import paths and different FFIs
+	ffiPkgs["blk/store"] = "package store\n\nimport \"github.com/goose-lang/goose/machine/disk\"\n\nfunc Blocks() uint64 {\n\treturn disk.Size() + 1\n}\n"
+	ffiPkgs["mem/store"] = "package store\n\nfunc Blocks() uint64 {\n\treturn 9\n}\n"
+	special := []string{"sv0", "sv1", "sv2", "sv3", "blk/store", "mem/store", "fasync", "fdisk", "fnone"}
+	for _, name := range special {
 		dir := filepath.Join(mod, "g", name)
 		os.MkdirAll(dir, 0o755)
 		os.WriteFile(filepath.Join(dir, "p.go"), []byte(ffiPkgs[name]), 0o644)
@@ -183,9 +195,9 @@ func main() {
 	nsub := 0
 	for i := 0; i < *subsets; i++ {
 		var pats []string
-		if i < 3 {
-			pats = []string{pkgs[len(pkgs)-1-i]} // each FFI / non-FFI package on its own
-		} else if i < 5 {
+		if i < 5 {
+			pats = []string{pkgs[len(pkgs)-1-i]} // each FFI / non-FFI / same-name package on its own
+		} else if i < 7 {
 			pats = []string{pkgs[r.Intn(len(pkgs))]} // a package on its own
 		} else {
 			for _, p := range pkgs {
